@@ -4,5 +4,6 @@ import Tibc.Props.C03
 #print axioms Tibc.C03.ack_deletes_commitment
 #print axioms Tibc.C03.ack_written_nonempty_never_overwritten
 #print axioms Tibc.C03.recorded_ack_is_app_ack
+#print axioms Tibc.C03.ack_accepted_was_written
 #print axioms Tibc.C03.step_ackInv
 #print axioms Tibc.C03.ack_processed_at_most_once
